@@ -43,7 +43,7 @@ def register(PROPS, HARNESS_PKGS):
         "rule": "catalogue: TLC enumerates every sequence of N operations {successful listing, rejected list "
                 "(nameless entry), failed discovery (500/404/203/204/unparsable/truncated/connection cut), removal} "
                 "over 2 endpoints (quick N=2, thorough N=3 and a sample of N=4; also 3 endpoints and per-endpoint "
-                "filters) plus seeded random walks (quick 2500 x 4 steps, thorough 20000 x 6 + 4000 x 10) over 3 "
+                "filters) plus seeded random walks (quick 2500 x 4 steps, thorough 60000 x 6 + 10000 x 12) over 3 "
                 "endpoints, all listings of <= 2 entries over {m@d1, m@d2, m, M, x::y, p*}, 5 filter configurations, "
                 "bursts (two listings of one endpoint back to back) and concurrent steps on distinct endpoints.  Each "
                 "scenario runs on the real registry (registry.NewModelRegistry, unified AND plain) through the real "
@@ -81,8 +81,8 @@ def register(PROPS, HARNESS_PKGS):
                                      _rgen(MaxLen=4),
                                      _rgen(Eps=_E3, Listings="ListingsMid", BadLists="BadAll", FailKinds="FailAll"),
                                      _rgen(Filters="FiltersQuick"),
-                                     _rsim(20000, 6), _rsim(4000, 10)],
-                             "sample": 60000},
+                                     _rsim(60000, 6), _rsim(10000, 12)],
+                             "sample": 150000},
                 "pkg": "internal/adapter/discovery", "test": "TestVerif_Catalogue",
                 "harness_dirs": ["c10disc", "c10reg"],
                 "trace": {"module": "RegistryTrace", "cfg": "Registry_trace.cfg"},
